@@ -213,3 +213,27 @@ MUTANTS += [
                                             "    _HIDDEN.append(1)\n    opt_state, _ = base_optimizer.apply(jax.tree_util.tree_map(lambda g: g * (1 + 0.01 * (len(_HIDDEN) > 4)), server_grads), server_state.opt_state,\n                                        server_state.params)\n    return ServerState(params, opt_state)\n\n  return federated_algorithm.FederatedAlgorithm(init, apply)\n\n\n_HIDDEN = []")],
      'module-global hidden state changes Mime after its fourth round in a process (optimizer state only)'),
 ]
+
+MUTANTS += [
+    # ---------------------------------------------------------------- C12
+    ('C12', 'fedprox_grad_wrt_server_params', [(FP, "  grad_fn = jax.grad(fed_prox_loss)\n", "  grad_fn = jax.grad(fed_prox_loss, argnums=1)\n")],
+     'FedProx differentiates with respect to the server parameters'),
+    ('C12', 'fedprox_penalty_without_half', [(FP, "    proximal_loss = 0.5 * proximal_weight * tree_util.tree_l2_squared(", "    proximal_loss = proximal_weight * tree_util.tree_l2_squared(")],
+     'proximal term mu*|w-w0|^2 instead of 0.5*mu*|w-w0|^2'),
+    ('C12', 'mimelite_delta_sign', [(ML, "    delta_params = jax.tree_util.tree_map(lambda a, b: a - b,\n                                               shared_input['params'],\n                                               step_state['params'])", "    delta_params = jax.tree_util.tree_map(lambda a, b: b - a,\n                                               shared_input['params'],\n                                               step_state['params'])")],
+     'MimeLite client delta has the wrong sign'),
+    ('C12', 'hyp_weight_by_one', [(HY, "        tree_util.tree_weight(delta_params, num_examples[client_id]))\n    cluster_num_examples_sum[cluster_id] += num_examples[client_id]", "        tree_util.tree_weight(delta_params, 1. * (num_examples[client_id] > 0)))\n    cluster_num_examples_sum[cluster_id] += 1 * (num_examples[client_id] > 0)")],
+     'HypCluster averages client deltas without example weights'),
+    ('C12', 'apfl_global_uses_personalised_grads', [(AP, "    server_opt_state, server_params = client_optimizer.apply(\n      server_grads,", "    server_opt_state, server_params = client_optimizer.apply(\n      client_grads,")],
+     'APFL trains the global model on the personalised gradient'),
+    ('C12', 'mime_drops_control_variate', [(MI, "        lambda g, cc, c: g - cc + c, grads, client_control_variate,", "        lambda g, cc, c: g, grads, client_control_variate,")],
+     'Mime without the control variate correction'),
+    ('C12', 'mime_ignores_server_lr', [(MI, "        lambda p, q: p - server_learning_rate * q, server_state.params,\n        mean_delta_params)\n    opt_state, _ = base_optimizer.apply(server_grads, server_state.opt_state,\n                                        server_state.params)\n    return ServerState(params, opt_state)", "        lambda p, q: p - q, server_state.params,\n        mean_delta_params)\n    opt_state, _ = base_optimizer.apply(server_grads, server_state.opt_state,\n                                        server_state.params)\n    return ServerState(params, opt_state)")],
+     'Mime server step ignores the server learning rate'),
+    ('C12', 'apfl_weight_by_one', [(AP, "      num_examples = client_num_examples[client_id]\n", "      num_examples = 1.0\n")],
+     'APFL global update is an unweighted mean'),
+    ('C12', 'fedprox_opt_state_shared_across_clients', [(FP, "    opt_state = client_optimizer.init(server_params)\n    client_step_state = {\n        'params': server_params,\n        'opt_state': opt_state,\n        'rng': client_rng,\n        'server_params': server_params,", "    opt_state = client_optimizer.init(jax.tree_util.tree_map(lambda x: x + 1, server_params))\n    client_step_state = {\n        'params': server_params,\n        'opt_state': opt_state,\n        'rng': client_rng,\n        'server_params': server_params,")],
+     'benign: optimizer init from other params (init ignores values for these optimizers) - expected to SURVIVE'),
+    ('C12', 'hyp_skips_second_round_momentum', [(HY, "      if delta_params is None:\n        next_opt_state, next_params = opt_state, params", "      if delta_params is None or (len(clients) == 3 and len(server_state.cluster_params) == 1):\n        next_opt_state, next_params = opt_state, params")],
+     'single-cluster HypCluster skips the server update for cohorts of exactly three clients'),
+]
